@@ -46,6 +46,11 @@ CHECKS.update({
    text="Engine.is_ready is verified for engines of ANY size: if it returns True with an initially empty error list then, for an arbitrary output variable, block, rule and conclusion, the defuzzifier is present, the aggregation operator is present when the defuzzifier is integral, the conjunction (disjunction) operator is present when ' and ' (' or ') occurs in a rule's antecedent text, and the implication operator is present when a loaded rule concludes on an output variable with an integral defuzzifier; the result is exactly `no errors`; nothing is written. Static composition: every raise statement in the call tree of Engine.process is matched to the is_ready clause, premise or proved callee precondition that excludes it (a new or unguarded raise site fails). The pinned tree failed one obligation (missing disjunction not reported) - a genuine defect repaired by fix commit 8fae7d7. Bounded (B): generated engines with every subset of operators removed x input forms, ready => process() completes.",
    note=A_WIRE + " H-WS (hypothesis of the property): rules are written with whitespace-separated tokens, i.e. the expression tree has an and/or node iff ' and '/' or ' occurs in the antecedent text. One residual raise site is NOT excluded by readiness and is listed: WeightedDefuzzifier.infer_type TypeError for mixed term kinds."),
 })
+CHECKS.update({
+ "C01": dict(cat="proof", design="8/C01", tech="loop-invariant VCs with block-indexed history functions from the real AST of Engine.process over the contracts of its callees; z3; bounded run-time stand-in against an independently wired reference pipeline",
+   text="Engine.process is verified for engines of ANY size over the contracts of its callees: every output variable's fuzzy output is empty before the first block runs; exactly the enabled rule blocks are activated, in order, each on the fuzzy outputs accumulated so far (Tb(j+1) = activate(block j, Tb(j)) if enabled else Tb(j)); then every enabled output variable takes the cascade (C12) of its defuzzifier applied to its final fuzzy output, range and aggregation operator, disabled ones keep their value; nothing else is written. The meaning of one activation is the interface contract proved per method in C08 (degrees = weight x antecedent, C06; contributions per conclusion, C07). Bounded (B): generated engines x input rows against a reference pipeline wired independently of process/activate/trigger/modify/defuzzify.",
+   note=A_WIRE + " The end-to-end statement is the composition of C01 (wiring) with C06/C07/C08/C12 (callee contracts) and C03/C04/C05/C09/C10 (leaf meanings) by substitution; the composition itself is not mechanised. Known finding C07-1 (hedge leak in Consequent.modify) is open and limits the composed statement to rules outside its region."),
+})
 TODO = {}
 def main():
     props = [json.loads(l) for l in open(os.path.join(HERE, "properties.jsonl"))]
